@@ -73,7 +73,7 @@ func main() {
 	f := (*localState).bump
 	f(st, 3)
 	fmt.Println(st, classify(st), classify(7), classify("abc"), classify(errSentinel), classify(nil), classify(3.5))
-	fmt.Println(loops(6), Twice(21), Clamp(15, 0, 10))
+	fmt.Println(loops(6), Twice(21), Clamp(15, 0, 10), TrapSum())
 	fmt.Println(lib.Describe(), lib.Total([]int{1, 2, 3}), lib.Registered())
 	var a iface.Animal = iface.NewDog("rex")
 	fmt.Println(a.Sound(), iface.Loudest([]iface.Animal{a, iface.NewCat()}), iface.Feed(a, 3))
